@@ -96,6 +96,12 @@ def check_accumulate(ctx, tables):
         ctx.ob("C20.2", site, ok_ix, "-x %s: sums are stored from index window-1 on along dimension %d" % (axname, pos), loc=loc, msg="result stored at %s" % str(ix))
         v = e["value"]
         at = q.top(v, "call:scipy.signal.convolve")
+        fft = q.top(v, "call:scipy.signal.fftconvolve") or q.top(v, "call:scipy.signal.oaconvolve")
+        if at is None and fft is not None:
+            ctx.ob("C20.2", site, False, "-x %s: the window sum is computed locally (a missing value only affects the windows that contain it)" % axname, loc=loc,
+                   msg="the window sum uses an FFT convolution (%s): one NaN in a series makes every window of that series NaN, also the complete "
+                       "windows that do not contain it" % fft.func[5:])
+            continue
         if at is None:
             cs = "cumsum" in v.key() if isinstance(v, Rat) else False
             if cs:
@@ -111,6 +117,15 @@ def check_accumulate(ctx, tables):
         arr_ok = at.args[0].key() in ("$array",) or "setitem($array" in at.args[0].key()
         ctx.ob("C20.2", site, ok_k and arr_ok, "-x %s: 'valid' convolution with ones(%s)" % (axname, ["window" if k == pos else 1 for k in range(3)]), loc=loc,
                msg="convolution kernel is %s mode %s" % (kern, at.args[2]), sample={"rule": "C20.2", "axis": axname, "kernel": str(kern)})
+        # scipy.signal.convolve(method='auto', the default) switches to FFT whenever it estimates that to be faster (already for a
+        # 5 x 50 x 3 array and a window of 24); FFT spreads one NaN over the whole series.  Only method='direct' is NaN-local.
+        kwm = [x[1] for x in at.args if isinstance(x, tuple) and x and x[0] == "kw:method"]
+        meth = symeval._strval(kwm[0]) if kwm else (symeval._strval(at.args[3]) if len([x for x in at.args if not isinstance(x, tuple)]) > 3 else None)
+        ctx.ob("C20.2", site, meth == "direct", "-x %s: the window sum is computed locally (method='direct'): a missing value only affects the windows that contain it"
+               % axname, loc=loc,
+               msg="scipy.signal.convolve is called with method=%r: with the default 'auto' scipy uses an FFT when it is faster, and one missing value "
+                   "then turns every window of the series into NaN, not only the windows that contain it" % meth,
+               sample={"rule": "C20.2", "axis": axname, "method": meth})
         base = e.get("old")
         nan_before = isinstance(base, Rat) and "$nan" in base.key() and "zeros(" in base.key()
         ctx.ob("C20.2", site, nan_before, "-x %s: incomplete windows stay NaN" % axname, loc=loc, msg="the result array is not initialised with NaN: %s" % str(base)[:80])
@@ -152,6 +167,13 @@ def check_ens2prob(ctx, tables):
         cmp_ = val.as_atom() if isinstance(val, Rat) else None
         ok = isinstance(mask, Rat) and mask.equals(valid) and cmp_ is not None and cmp_.func in ("cmp_lt", "cmp_le") and \
             cmp_.args[0].equals(form.apply("getitem", [ens, valid])) and "$args.thresholds" in cmp_.args[1].key() and "$nan" in base.key()
+        # column i belongs to the i-th requested threshold, which is what the 'threshold' variable lists at position i
+        thr = cmp_.args[1] if cmp_ is not None else None
+        same = isinstance(thr, Rat) and (thr.equals(form.apply("elem", [S("args.thresholds")])) or
+                                         thr.equals(form.apply("getitem", [S("args.thresholds"), S("i")])))
+        ctx.ob("C20.3", site, same, "CDF column i is computed for the i-th threshold as listed in the 'threshold' variable", loc=loc,
+               msg="column i of the CDF is computed for %s, but the 'threshold' variable lists $args.thresholds[i]: with thresholds given in another "
+                   "order the probabilities are stored against the wrong threshold" % str(thr)[:80])
     ctx.ob("C20.3", site, ok, "CDF: (member < threshold) evaluated on the non-missing members only, missing members stay NaN", loc=loc,
            msg="the CDF comparison is %s" % str(a.args[0])[:200], sample={"rule": "C20.3", "cdf": str(a.args[0])[:160]})
     # value in [0,1]: nanmean(...)*(upper-lower) + lower/2 with constants 0 <= lower, upper <= 1
